@@ -328,7 +328,7 @@ Section WithH.
     else (None, match oci_get s (d_dg d) with Some _ => true | None => false end).
 
   (* ---------------------------------------------------------------- file.Store *)
-  (* f_files: what is on disk under each name (a failed push removes its partial
+  (* f_files: what is on disk under each path (a failed push removes its partial
      file); f_names: nameStatus.exists; f_d2p: digestToPath; f_fb: fallback *)
   Record fstore := mkFs { f_files : list (str * str); f_names : list str;
                           f_d2p : list (str * str); f_fb : mem }.
@@ -349,7 +349,11 @@ Section WithH.
 
   Definition file_bufsz : nat := 32768.
 
-  Definition file_push (fuel : nat) (s : fstore) (name : str) (d : desc) (evs : list ev)
+  (* [path] = resolveWritePath name: the cleaned absolute path the name resolves to
+     (path/filepath is not modelled: the resolved path is an input).  nameStatus is
+     keyed by the NAME STRING, the file and digestToPath by the PATH: two names of one
+     path ("a", "./a") alias each other. *)
+  Definition file_push (fuel : nat) (s : fstore) (name path : str) (d : desc) (evs : list ev)
     : option rerr * fstore :=
     match name with
     | [] =>
@@ -362,10 +366,10 @@ Section WithH.
           | ((Some e, out), _) =>
               (* pushFile removes the partially written file again (os.Create truncated
                  whatever was there) *)
-              (Some e, mkFs (assoc_del (f_files s) name) (f_names s) (f_d2p s) (f_fb s))
+              (Some e, mkFs (assoc_del (f_files s) path) (f_names s) (f_d2p s) (f_fb s))
           | ((None, out), _) =>
-              (None, mkFs (assoc_set (f_files s) name out) (name :: f_names s)
-                          (assoc_set (f_d2p s) (d_dg d) name) (f_fb s))
+              (None, mkFs (assoc_set (f_files s) path out) (name :: f_names s)
+                          (assoc_set (f_d2p s) (d_dg d) path) (f_fb s))
           end
     end.
 
@@ -413,10 +417,16 @@ Section Histories.
   | oci_reach_limited comb fuel limit s d evs e s' :
       oci_reach s -> limited_push (oci_push H comb true fuel) limit s d evs = (e, s') -> oci_reach s'.
 
+  (* the pushed name does not alias a path that already serves visible content *)
+  Definition path_free (s : fstore) (path : str) : Prop :=
+    forall dg p, assoc_get (f_d2p s) dg = Some p -> str_eqb path p = false.
+
+  (* histories of the file store in which no push aliases a visible path *)
   Inductive file_reach : fstore -> Prop :=
   | file_reach_nil : file_reach (mkFs [] [] [] [])
-  | file_reach_push comb fuel s name d evs e s' :
-      file_reach s -> file_push H comb true fuel s name d evs = (e, s') -> file_reach s'.
+  | file_reach_push comb fuel s name path d evs e s' :
+      file_reach s -> path_free s path ->
+      file_push H comb true fuel s name path d evs = (e, s') -> file_reach s'.
 
   (* ---------------------------------------------------------------- concurrent pushes into one OCI layout *)
   (* Each push is a thread: Stat, CreateTemp, a sequence of Writes to its own
@@ -505,6 +515,65 @@ Section Histories.
 
   Definition thread_results (st : cstate) : list (option (option rerr)) :=
     map (fun t => match t_pc t with PDone r => Some r | _ => None end) (c_thr st).
+  (* ---------------------------------------------------------------- concurrent pushes into one cas.Memory *)
+  (* Memory.Push = Load (exists?) ; ReadAll (thread-local) ; LoadOrStore (atomic).
+     [m_lim] = Some l: the push goes through LimitedStorage with push limit l. *)
+  Inductive mpc :=
+  | MStart
+  | MRead (res : option rerr) (buf : str)
+  | MDone (r : option rerr).
+
+  Record mthr := mkMthr { m_d : desc; m_evs : list ev; m_comb : bool; m_fuel : nat; m_lim : option Z; m_pc : mpc }.
+  Record mstate := mkM { ms_mem : mem; ms_thr : list mthr }.
+
+  Definition with_mpc (t : mthr) (p : mpc) : mthr :=
+    mkMthr (m_d t) (m_evs t) (m_comb t) (m_fuel t) (m_lim t) p.
+
+  Definition mstep (st : mstate) (i : nat) : option mstate :=
+    match nth_error (ms_thr st) i with
+    | None => None
+    | Some t =>
+        let upd p := set_nth (ms_thr st) i (with_mpc t p) in
+        match m_pc t with
+        | MDone _ => None
+        | MStart =>
+            let too_big := match m_lim t with Some l => (d_sz (m_d t) >? l)%Z | None => false end in
+            if too_big then Some (mkM (ms_mem st) (upd (MDone (Some ETooBig))))
+            else match mem_get (ms_mem st) (m_d t) with
+                 | Some _ => Some (mkM (ms_mem st) (upd (MDone (Some EExists))))
+                 | None =>
+                     let src := mkBase (m_evs t) (match m_lim t with Some _ => Some (d_sz (m_d t)) | None => None end) in
+                     let '((e, buf), _) := read_all H (m_comb t) true (m_fuel t) src (d_dg (m_d t)) (d_sz (m_d t)) in
+                     Some (mkM (ms_mem st) (upd (MRead e buf)))
+                 end
+        | MRead (Some e) _ => Some (mkM (ms_mem st) (upd (MDone (Some e))))
+        | MRead None buf =>
+            match mem_get (ms_mem st) (m_d t) with        (* LoadOrStore *)
+            | Some _ => Some (mkM (ms_mem st) (upd (MDone (Some EExists))))
+            | None => Some (mkM ((m_d t, buf) :: ms_mem st) (upd (MDone None)))
+            end
+        end
+    end.
+
+  Fixpoint mrun (st : mstate) (sched : list nat) : option mstate :=
+    match sched with
+    | [] => Some st
+    | i :: r => match mstep st i with Some st' => mrun st' r | None => None end
+    end.
+  Fixpoint explore_m (fuel : nat) (st : mstate) : list mstate :=
+    match fuel with
+    | O => []
+    | S f =>
+        let nexts := flat_map (fun i => match mstep st i with Some st' => [st'] | None => [] end)
+                              (seq 0 (length (ms_thr st))) in
+        match nexts with
+        | [] => [st]
+        | _ => flat_map (explore_m f) nexts
+        end
+    end.
+
+  Definition mthread_results (st : mstate) : list (option (option rerr)) :=
+    map (fun t => match m_pc t with MDone r => Some r | _ => None end) (ms_thr st).
 End Histories.
 
 (* ------------------------------------------------------------------ cas.Proxy *)
